@@ -7,6 +7,7 @@ import (
 	"net"
 	"runtime/debug"
 	"strings"
+	"sync"
 	"sync/atomic"
 	"syscall"
 	"time"
@@ -23,10 +24,10 @@ func (c07Stream) Name() string               { return "c07" }
 func (c07Stream) CaseTimeout() time.Duration { return 60 * time.Second }
 func (c07Stream) NoModel() bool              { return true }
 func (c07Stream) Rule() string {
-	return "one fault per scenario - a panicking handler for each concurrently dispatched operation (bind, search, modify, add, delete, extended), for StartTLS, for the unbind route and for the default route; a connection reset; a truncated frame followed by silence; a client that sends searches with large results and never reads; descriptor exhaustion at accept (RLIMIT_NOFILE lowered in the worker); a frame of 2^20 nested indefinite-length sequence headers (goroutine stack limit lowered to 32 MiB in the worker) - injected while two bystander connections issue requests continuously; oracle: the worker process survives, the bystanders keep receiving correct responses during and after the fault, and a new connection is accepted and served afterwards; non-trivial = every scenario, distinct by fault"
+	return "one fault per scenario - a panicking handler for each concurrently dispatched operation (bind, search, modify, add, delete, extended), for StartTLS, for the unbind route and for the default route; a connection reset; a truncated frame followed by silence; a client that sends searches with large results and never reads; descriptor exhaustion at accept (RLIMIT_NOFILE lowered in the worker); 48 connections whose read loops end on a malformed frame while a slow request of theirs is still being handled, with 48 new connections arriving at once; a frame of 2^20 nested indefinite-length sequence headers (goroutine stack limit lowered to 32 MiB in the worker) - injected while two bystander connections issue requests continuously; oracle: the worker process survives, the bystanders keep receiving correct responses during and after the fault, and a new connection is accepted and served afterwards; non-trivial = every scenario, distinct by fault"
 }
 
-var c07Faults = []string{"panic-bind", "panic-search", "panic-modify", "panic-add", "panic-delete", "panic-extended", "panic-starttls", "panic-unbind", "panic-default", "rst", "truncated", "notreading", "fdexhaust", "deepnest"}
+var c07Faults = []string{"panic-bind", "panic-search", "panic-modify", "panic-add", "panic-delete", "panic-extended", "panic-starttls", "panic-unbind", "panic-default", "rst", "truncated", "notreading", "fdexhaust", "deepnest", "latewriter"}
 
 func (c07Stream) Generate(rng *rand.Rand, n int, thorough bool) []Case {
 	var cs []Case
@@ -50,6 +51,9 @@ func (c07Stream) Impl(c Case) string {
 			isVictim = m.UserName == victimDN
 		case *gldap.SearchMessage:
 			isVictim = m.BaseDN == victimDN
+			if isVictim && fault == "latewriter" {
+				time.Sleep(40 * time.Millisecond) // answers after its connection's read loop has already ended
+			}
 			if isVictim && fault == "notreading" {
 				for i := 0; i < 400; i++ {
 					if err := w.Write(r.NewSearchResponseEntry("e", gldap.WithAttributes(map[string][]string{"p": {payload}}))); err != nil {
@@ -179,6 +183,46 @@ func (c07Stream) Impl(c Case) string {
 			buf = append(buf, nd.Ser()...)
 		}
 		_ = victim.send(buf)
+	case fault == "latewriter":
+		// 48 connections each with a slow request in flight when a malformed frame ends their read loop; right
+		// away 48 new connections bind: whatever the late handlers still write must not reach anybody else
+		var vs []*rawClient
+		for i := 0; i < 48; i++ {
+			v, err := dialRaw(sut.addr, nil)
+			if err != nil {
+				continue
+			}
+			vs = append(vs, v)
+			r := Req{Kind: "search", ID: 4242, DN: victimDN, Scope: 2, Filter: "(cn=x)"}
+			nd, _ := r.Node()
+			_ = v.send(append(nd.Ser(), 0x30, 0x03, 0x02, 0x01, 0xff, 0xff, 0xff, 0xff))
+		}
+		var lw sync.WaitGroup
+		for i := 0; i < 48; i++ {
+			lw.Add(1)
+			go func(i int) {
+				defer lw.Done()
+				n, err := dialRaw(sut.addr, nil)
+				if err != nil {
+					bad.Store("a new connection was refused while faulty connections wind down: " + err.Error())
+					return
+				}
+				defer n.close()
+				for j := int64(0); j < 3; j++ {
+					_ = n.send(opFrame("bind", 7000+j))
+					f, err := n.readFrame(5 * time.Second)
+					if err != nil || !strings.HasPrefix(strictView(f), fmt.Sprintf("result id=%d tag=1 code=0", 7000+j)) {
+						bad.Store(fmt.Sprintf("a new connection received somebody else's response: %s (%v)", strictView(f), err))
+						return
+					}
+					time.Sleep(15 * time.Millisecond)
+				}
+			}(i)
+		}
+		lw.Wait()
+		for _, v := range vs {
+			v.close()
+		}
 	case fault == "deepnest":
 		// a "malformed frame": nothing but nested indefinite-length sequence headers. asn1-ber reads
 		// it recursively with no depth limit; the goroutine stack limit is lowered in this worker so that
